@@ -105,3 +105,23 @@ def C10(run):
                        "leaves it) and a foreign file, and ListSnapshotFiles(below) for every boundary b-1,b,b+1. Plus all cut / "
                        "save-load events of the store driver. Non-trivial = more than one entry / more than one file listed.")
     run.assumptions += ["block numbers are passed to TLC as <<hi, lo>> pairs (32-bit integers)", "content compared as hex strings"]
+
+
+def C12(run):
+    q = run.tier == "quick"
+    run.model_check("MCPlan", "MCPlan_quick.cfg" if q else "MCPlan_thorough.cfg", workers=16, timeout=2400)
+    tr = _t(run, "plan.ndjson")
+    info = run.harness("plan", tr)
+    v = run.validate_sharded("TracePlan", tr, boundary='{"H"', shards=16, heap="3g")
+    run.judge(v, tr, "plan")
+    run.sample(tr, pick={100000, 200001, info["records"] - 5})
+    run.cov["distinct_nontrivial"] = info["distinct_nontrivial"]
+    run.cov["rule"] = ("plan driver: exhaustive grid (mode x segment size x ordered lists of 0..2 (3 in thorough) store initial blocks x "
+                       "output initial block x start 0..25 x stop in {0,start+1,start+3,start+seg,20,30} x final block unknown/known) "
+                       "+ cursor shapes (step x block x LIB x resolver answer same/junction/error x stop) + seeded random configurations "
+                       "from the full ranges of the property text; each pushed through exec.NewOutputModuleGraph, "
+                       "pipeline.BuildRequestDetails, ValidateRequestStartBlock and plan.BuildTier1RequestPlan in tier1's order. "
+                       "Non-trivial = accepted request that needs back-filling (BuildStores or ReadExecOut present); distinct by content.")
+    run.assumptions += ["a pure irreversible-step cursor whose block differs from its LIB is not generated (the server never emits one; "
+                        "the code resolves it to start block 0 silently - noted in DESIGN.md)",
+                        "requests with stop <= start (other than the rejected start = stop) are outside the stated space"]
